@@ -55,6 +55,12 @@ type pathEval struct {
 	// hook, when set, may name a value the evaluator has no transfer function for (a state
 	// accessor recognised by the caller of the evaluator)
 	hook func(v ssa.Value) (ratf, bool)
+	// tupleHook, when set, may give the results of a multi-result call (an accessor returning
+	// several amounts at once)
+	tupleHook func(in *ssa.Call) ([]interface{}, bool)
+	// cells: the amount last stored in a local pointer cell (a named result spilled because of a
+	// defer, a variable captured by reference)
+	cells map[*ssa.Alloc]ssa.Value
 }
 
 func isBigPtr(t types.Type) bool {
@@ -109,6 +115,13 @@ func (e *pathEval) resolve(v ssa.Value) ssa.Value {
 			}
 			v = r
 			continue
+		case *ssa.UnOp:
+			if a, ok := x.X.(*ssa.Alloc); ok && x.Op == token.MUL {
+				if w, ok := e.cells[a]; ok {
+					v = w
+					continue
+				}
+			}
 		}
 		break
 	}
@@ -154,7 +167,7 @@ func (e *pathEval) num(v ssa.Value) ratf {
 			if bt, ok := x.Type().Underlying().(*types.Basic); ok && bt.Info()&types.IsFloat != 0 {
 				out = rdiv(a, b)
 			} else {
-				out = e.al.atom("intdiv", "intdiv", a, b)
+				out = intdivAtom(e.al, a, b)
 			}
 		default:
 			out = e.al.fresh("binop")
@@ -248,6 +261,12 @@ func (e *pathEval) write(o *bobj, val ratf, pos token.Pos) {
 func (e *pathEval) call(in *ssa.Call) {
 	callee := in.Call.StaticCallee()
 	setResult := func(o *bobj) { e.objs[in] = o }
+	if e.tupleHook != nil {
+		if t, ok := e.tupleHook(in); ok {
+			e.tuples[in] = t
+			return
+		}
+	}
 	if e.hook != nil {
 		if r, ok := e.hook(in); ok {
 			if isBigPtr(in.Type()) {
@@ -298,7 +317,7 @@ func (e *pathEval) call(in *ssa.Call) {
 			bin(rmul)
 		case "Quo", "Div":
 			if strings.HasSuffix(args[0].Type().String(), "big.Int") {
-				bin(func(a, b ratf) ratf { return e.al.atom("intdiv", "intdiv", a, b) })
+				bin(func(a, b ratf) ratf { return intdivAtom(e.al, a, b) })
 			} else {
 				bin(rdiv)
 			}
@@ -391,6 +410,7 @@ func (e *pathEval) call(in *ssa.Call) {
 			if paths, ok := core.PathsTo(rets[0], 2); ok && len(paths) == 1 {
 				sub := newPathEval(e.c, e.al, callee, paths[0], e.depth+1)
 				sub.hook = e.hook
+				sub.tupleHook = e.tupleHook
 				for i, p := range callee.Params {
 					if i >= len(args) {
 						break
@@ -434,6 +454,14 @@ func (e *pathEval) run(ret *ssa.Return) []interface{} {
 		for _, in := range b.Instrs {
 			if c, ok := in.(*ssa.Call); ok {
 				e.call(c)
+			}
+			if st, ok := in.(*ssa.Store); ok && isBigPtr(st.Val.Type()) {
+				if a, ok := st.Addr.(*ssa.Alloc); ok {
+					if e.cells == nil {
+						e.cells = map[*ssa.Alloc]ssa.Value{}
+					}
+					e.cells[a] = e.resolve(st.Val)
+				}
 			}
 			if in == ssa.Instruction(ret) {
 				break
